@@ -408,6 +408,11 @@ func run(repo string) (string, error) {
 		return "", err
 	}
 	s += st
+	rs, err := recvSkeletonFacts(cf)
+	if err != nil {
+		return "", err
+	}
+	s += rs
 	s += "end Dos.Gen\n"
 	return s, nil
 }
